@@ -127,11 +127,8 @@ class Morph:
             long_vertices = 2
         if long_vertices > 0 and two_legs == 0:
             long_vertices += 1
-        if long_vertices == 0 and two_legs == 0 and one_legs == 1:
+        if long_vertices == 0 and two_legs == 0 and one_legs >= 1:
             long_vertices = 1
-        if long_vertices == 0 and two_legs == 0 and one_legs == 2:
-            long_vertices = 1
-            one_legs = 2
         return one_legs, two_legs, long_vertices
 
     def get_properties(self) -> tuple[TypeGraph,int,int,int]:
